@@ -122,11 +122,13 @@ func ruleResetBeforeAppend(c *Ctx, r *Rule) {
 			}
 		}
 		find()
+		var helperStmt ast.Stmt
 		if forEachIdx < 0 {
 			// the encoding half may live in a helper of the same package that is handed the batch
 			// (`n := p.encodeBatch(data, batch)`): the reset / iterate discipline is then checked there
 			var helper *ast.FuncDecl
 			for _, st := range fd.Body.List {
+				st := st
 				ast.Inspect(st, func(n ast.Node) bool {
 					call, ok := n.(*ast.CallExpr)
 					if !ok || helper != nil {
@@ -156,6 +158,7 @@ func ruleResetBeforeAppend(c *Ctx, r *Rule) {
 							for _, d := range f.Decls {
 								if hd, ok := d.(*ast.FuncDecl); ok && p.TypesInfo.Defs[hd.Name] == obj && hd.Body != nil {
 									helper = hd
+									helperStmt = st
 								}
 							}
 						}
@@ -166,6 +169,8 @@ func ruleResetBeforeAppend(c *Ctx, r *Rule) {
 			if helper != nil {
 				fd = helper
 				find()
+			} else {
+				helperStmt = nil
 			}
 		}
 		if forEachIdx < 0 {
@@ -173,6 +178,18 @@ func ruleResetBeforeAppend(c *Ctx, r *Rule) {
 			continue
 		}
 		r.Inst(1)
+		// every call of the send function encodes the batch it was given: the iteration (or the helper
+		// that does it) is a plain top-level statement, not something skipped under a condition
+		top := fd.Body.List[forEachIdx]
+		if helperStmt != nil {
+			top = helperStmt
+		}
+		simple := false
+		switch top.(type) {
+		case *ast.ExprStmt, *ast.AssignStmt, *ast.DeclStmt:
+			simple = true
+		}
+		r.Ob(simple, name+"|encodes-on-every-call", top.Pos(), "the batch handed to the send function is encoded on every call (a body kept from an earlier call belongs to whatever batch object was encoded then; batch objects are recycled)")
 		// buffers appended to per event: LHS[0] of assignments in the closure whose RHS call takes the same expression as an argument
 		grown := map[string]token.Pos{}
 		ast.Inspect(closure.Body, func(n ast.Node) bool {
@@ -532,7 +549,7 @@ func ruleKafkaRecords(c *Ctx, r *Rule) {
 					for _, ci := range callsIn(out) {
 						if f := calleeFunc(ci); f != nil && f.Name() == "ForEach" {
 							if mc, ok := ci.Common().Args[1].(*ssa.MakeClosure); ok && fvIdx >= 0 && fvIdx < len(mc.Bindings) && mc.Bindings[fvIdx] == ssa.Value(al) {
-								if _, f, _, okf := loadedField(sl.X); okf && f == "messages" {
+								if _, f, _, okf := loadedField(stripConv(sl.X)); okf && f == "messages" {
 									okProd = true
 								}
 							}
